@@ -386,6 +386,23 @@ def evaluator(P, spec, rep):
                 if p.exit == "Ok" and p.ret[3][0][0] == 'int' and nodes(p.ret[3][0][1]) > 3:
                     bad = ("value of `%s` is a compound expression (%s): agreement on the grid is not a proof" % (tok, sx.show(p.ret[3][0][1])), None)
                     unprov = True
+        # strict evaluation: a value is produced only after every operand was evaluated successfully (an error in an operand — division
+        # by zero, overflow, unknown name — fails the expression whatever the other operand is)
+        if bad is None:
+            for p in plist:
+                if p.exit != "Ok":
+                    continue
+                done = set()
+                for s_, d_ in p.state.doms.items():
+                    if isinstance(s_, tuple) and s_[0] == 's' and s_[1].endswith("#d") and sx.dom_size(d_) == 1 and sx.dom_min(d_) == 0:
+                        for nm, suf in names.items():
+                            if re.search(suf.replace(r":Ok\.0$", r"#d$"), s_[1]):
+                                done.add(nm)
+                missing_ = sorted(set(names) - done)
+                if missing_:
+                    which = {"l": "left", "r": "right", "v": "its"}[missing_[0]]
+                    bad = ("`%s` can yield a value without evaluating %s operand (short-circuit): an error in that operand is swallowed" % (tok, which), None)
+                    break
         # no Ok path may carry an unguarded overflow assert
         panicky = sorted({e[1] for p in plist if p.exit == "Ok" for e in p.events if e[0] == 'may-panic'})
         if bad is None and panicky:
